@@ -90,7 +90,7 @@ def main(argv):
         if not os.path.exists(os.path.join(d, "patch.diff")) or only not in name:
             continue
         meta = json.load(open(os.path.join(d, "meta.json")))
-        if meta.get("obsolete"):
+        if meta.get("obsolete") and not os.environ.get("PSWEEP_INCLUDE_OBSOLETE"):
             rows[name] = {"seeded": name, "property": meta["property"], "detected_by": "obsolete", "note": meta["obsolete"]}
             print("%-28s property=%s obsolete" % (name, meta["property"]), flush=True)
             continue
